@@ -157,6 +157,65 @@ pub fn trace_lines_since(from: u64) -> Vec<String> {
     }
 }
 
+/// number of injected failures so far
+pub fn failed_injected() -> u64 {
+    STATE.lock().unwrap().as_ref().map(|s| s.failed_injected).unwrap_or(0)
+}
+
+/// operations that were let through their Begin and have not reported their End yet
+pub fn inflight() -> i64 {
+    STATE.lock().unwrap().as_ref().map(|s| s.inflight_all.max(s.inflight)).unwrap_or(0)
+}
+
+/// the labels `<file>:<Kind>:<site>` of the Begin events with index >= `from`, in the order the hook saw them
+/// (file: `meta ln bbn ht wal rollback dir`) — the step labels of the Lean pipeline model (`Api/PipelineTrace.lean`)
+pub fn labels_since(from: u64) -> Vec<String> {
+    let g = STATE.lock().unwrap();
+    match g.as_ref() {
+        Some(s) => s
+            .log
+            .iter()
+            .filter(|e| e.phase == Phase::Begin && e.idx >= from && !e.file.starts_with("ABORT"))
+            .map(|e| format!("{}:{:?}:{}", e.file.split(':').next().unwrap_or(""), e.kind, e.site))
+            .collect(),
+        None => vec![],
+    }
+}
+
+/// a pipeline step reported by `verif_hook::step` (hook H14): a marker in the event log (phase End, file `STEP`: invisible to
+/// everything that looks at Begin events)
+pub fn record_step(name: &'static str) {
+    if let Some(s) = STATE.lock().unwrap().as_mut() {
+        let idx = s.begins;
+        s.log.push(Ev { idx, file: "STEP".into(), kind: Kind::Fsync, phase: Phase::End, offset: 0, len: 0, site: name, thread: thread_id() });
+    }
+}
+
+/// number of entries of the event log (a position for `seq_from`)
+pub fn log_len() -> usize {
+    STATE.lock().unwrap().as_ref().map(|s| s.log.len()).unwrap_or(0)
+}
+
+/// the steps (`s:<name>`) and I/O Begin events (`io:<file>:<Kind>:<site>`) logged from position `pos` on, in order
+pub fn seq_from(pos: usize) -> Vec<String> {
+    let g = STATE.lock().unwrap();
+    match g.as_ref() {
+        Some(s) => s.log[pos.min(s.log.len())..]
+            .iter()
+            .filter_map(|e| {
+                if e.file == "STEP" {
+                    Some(format!("s:{}", e.site))
+                } else if e.phase == Phase::Begin && !e.file.starts_with("ABORT") {
+                    Some(format!("io:{}:{:?}:{}", e.file.split(':').next().unwrap_or(""), e.kind, e.site))
+                } else {
+                    None
+                }
+            })
+            .collect(),
+        None => vec![],
+    }
+}
+
 pub fn begins() -> u64 {
     STATE.lock().unwrap().as_ref().map(|s| s.begins).unwrap_or(0)
 }
